@@ -199,6 +199,14 @@ void length_checks(Tape& t, Ctx& ctx, const PP& pp, const char* what) {
   if (t.chance(1, 5)) dt = 0.01;
   if (dt < 1e-4) dt = 1e-4;
   if ((b - a) / dt > 20000) dt = (b - a) / 20000;
+  // steps that nearly divide the interval: the last regular sample falls just short of the end,
+  // on either side of the 1e-6 threshold below which the end point is not appended
+  if (t.chance(1, 4) && b - a > 1e-3) {
+    static const double kLeft[] = {2.5e-7, 9.9e-7, 1.01e-6, 3e-6, 0.0};
+    int n = 8 + t.range(0, 200);
+    dt = (b - a - kLeft[t.range(0, 4)]) / n;
+    ctx.label("length-step-nearly-divides");
+  }
   if (ctx.want_desc) ctx.desc << ", \"trajectory\": \"" << what << "\", \"segments\": " << nseg << ", \"from\": " << g17(a) << ", \"to\": " << g17(b) << ", \"dt\": " << g17(dt);
   // model: seg lookup + long double derivative evaluation from the published coefficients
   auto segof = [&](ld tt) { int s = 0; if (tt >= bk.back()) return nseg - 1; while (s + 1 < nseg && tt >= bk[s + 1]) ++s; return s; };
@@ -242,7 +250,12 @@ void length_checks(Tape& t, Ctx& ctx, const PP& pp, const char* what) {
     ld errL = 2 * fabsl(L1 - L2), errA = 2 * fabsl(A1 - A2);
     ld Aup = A2 + errA;
     if (errL <= 0.1L * maxstep * Aup + 1e-9L * (1 + L2) && errA <= 0.1L * A2 + 1e-12L) {
-      ld bound = maxstep * Aup * (1 + 1e-9L) + errL + 1e-9L * (1 + L2);
+      // the sequence may stop up to 1e-6 short of (or beyond) the requested end: the sum then covers
+      // [a, v.back()], and the stretch between v.back() and b contributes at most gap * max speed
+      ld gap = v.empty() ? 0 : fabsl((ld)b - (ld)v.back());
+      ld tail = gap * (dnorm((ld)b, 1) + Aup);
+      if (gap > 0) ctx.label("length-sequence-ends-short-of-end");
+      ld bound = maxstep * Aup * (1 + 1e-9L) + tail * (1 + 1e-9L) + errL + 1e-9L * (1 + L2);
       ctx.maxi("length_err_over_bound", (double)(fabsl((ld)L - L2) / bound));
       VCHECK(ctx, fabsl((ld)L - L2) <= bound, "length-bound",
              what << ": |length(dt=" << g17(h) << ") - true arc length| = " << lg(fabsl((ld)L - L2)) << " exceeds step*integral|x''| = " << lg(bound) << " (length " << g17(L) << ", true " << lg(L2) << ")");
